@@ -2,6 +2,7 @@
 From ZV.Common Require Import Base Run.
 From ZV.C09 Require Import Model ProofsBits ProofsVec ModelSorted Cases ProofsSorted ProofsZip.
 From ZV.C09 Require Import ModelIntVec ProofsIntVecBits ProofsIntVecPack ProofsIntVecGet ProofsIntVecAnalysis ProofsIntVecTop.
+From ZV.C09 Require Import ModelUintVector ProofsUintVector ProofsUintVectorPush ModelMin0Typed ProofsMin0Typed.
 Open Scope N_scope.
 
 (* a field of any supported width never straddles the 64-bit load window *)
@@ -194,3 +195,78 @@ Check intvec_construct_get :
       (forall i, (i < length xs)%nat -> iv_get t v (N.of_nat i) = IOk (Some (nth i xs 0%Z))) /\
       (forall i, nlen xs <= i -> iv_get t v i = IOk None).
 Print Assumptions intvec_construct_get.
+
+(* ---------- UintVector (raw / min-max bit packing / run length, push with recompression) ---------- *)
+(* bulk construction with whatever strategy covers the input (raw, min-max with a sufficient width, run length):
+   the stored fields read back *)
+Theorem uintvector_any_strategy :
+  forall s vals, vals <> [] -> Forall (fun v => v < W32c) vals -> ucovers s vals ->
+    exists v, uv_build_with s vals = IOk v /\ ustrat v = s /\ ulen v = nlen vals /\ utemp v = [] /\
+      (forall i, (i < length vals)%nat -> uv_get_compressed s (udata v) (N.of_nat i) = IOk (Some (nth i vals 0))).
+Proof. exact uv_build_with_get. Qed.
+Check uintvector_any_strategy :
+  forall s vals, vals <> [] -> Forall (fun v => v < W32c) vals -> ucovers s vals ->
+    exists v, uv_build_with s vals = IOk v /\ ustrat v = s /\ ulen v = nlen vals /\ utemp v = [] /\
+      (forall i, (i < length vals)%nat -> uv_get_compressed s (udata v) (N.of_nat i) = IOk (Some (nth i vals 0))).
+Print Assumptions uintvector_any_strategy.
+
+(* build_from, for every sequence of u32 values and whatever the two floating-point comparisons of the analysis
+   answer: success, length kept, element i reads back, reads past the end return None *)
+Theorem uintvector_get_build :
+  forall fc vals, Forall (fun v => v < W32c) vals ->
+    exists v, uv_build_from fc vals = IOk v /\ ulen v = nlen vals /\ utemp v = [] /\
+      (forall i, (i < length vals)%nat -> uv_get v (N.of_nat i) = IOk (Some (nth i vals 0))) /\
+      (forall i, nlen vals <= i -> uv_get v i = IOk None).
+Proof. exact uv_build_from_get. Qed.
+Check uintvector_get_build :
+  forall fc vals, Forall (fun v => v < W32c) vals ->
+    exists v, uv_build_from fc vals = IOk v /\ ulen v = nlen vals /\ utemp v = [] /\
+      (forall i, (i < length vals)%nat -> uv_get v (N.of_nat i) = IOk (Some (nth i vals 0))) /\
+      (forall i, nlen vals <= i -> uv_get v i = IOk None).
+Print Assumptions uintvector_get_build.
+
+(* incremental construction: pushing the values one by one (pending values, recompression of everything at every
+   64th push) succeeds and is observationally equal to bulk construction - same length, same get at every index *)
+Theorem uintvector_push_equals_bulk :
+  forall fc xs, Forall (fun a => a < W32c) xs ->
+    exists v b, uv_push_all fc uv_new xs = IOk v /\ uv_build_from fc xs = IOk b /\
+      ulen v = nlen xs /\ ulen b = nlen xs /\
+      (forall i, uv_get v i = uv_get b i) /\
+      (forall i, (i < length xs)%nat -> uv_get v (N.of_nat i) = IOk (Some (nth i xs 0))) /\
+      (forall i, nlen xs <= i -> uv_get v i = IOk None).
+Proof. exact uv_push_equals_bulk. Qed.
+Check uintvector_push_equals_bulk :
+  forall fc xs, Forall (fun a => a < W32c) xs ->
+    exists v b, uv_push_all fc uv_new xs = IOk v /\ uv_build_from fc xs = IOk b /\
+      ulen v = nlen xs /\ ulen b = nlen xs /\
+      (forall i, uv_get v i = uv_get b i) /\
+      (forall i, (i < length xs)%nat -> uv_get v (N.of_nat i) = IOk (Some (nth i xs 0))) /\
+      (forall i, nlen xs <= i -> uv_get v i = IOk None).
+Print Assumptions uintvector_push_equals_bulk.
+
+(* ---------- UintVecMin0::build_from_u32 / build_from_i32 ---------- *)
+(* every u32 sequence (the range always fits 58 bits) *)
+Theorem min0_build_from_u32_get :
+  forall src, src <> [] -> Forall (fun v => v < 2 ^ 32) src ->
+    exists m mn, build_from_u32 src = Ok (m, mn) /\ size m = nlen src /\
+      forall i, (i < length src)%nat -> get m (N.of_nat i) = Ok (nth i src 0 - mn) /\ mn <= nth i src 0.
+Proof. exact build_from_u32_get. Qed.
+Check min0_build_from_u32_get :
+  forall src, src <> [] -> Forall (fun v => v < 2 ^ 32) src ->
+    exists m mn, build_from_u32 src = Ok (m, mn) /\ size m = nlen src /\
+      forall i, (i < length src)%nat -> get m (N.of_nat i) = Ok (nth i src 0 - mn) /\ mn <= nth i src 0.
+Print Assumptions min0_build_from_u32_get.
+
+(* every i32 sequence, including i32::MIN together with i32::MAX *)
+Theorem min0_build_from_i32_get :
+  forall src, src <> [] -> Forall in_i32 src ->
+    exists m mn, build_from_i32 src = Ok (m, mn) /\ size m = nlen src /\
+      forall i, (i < length src)%nat ->
+        get m (N.of_nat i) = Ok (Z.to_N (nth i src 0%Z - mn)) /\ (mn <= nth i src 0%Z)%Z.
+Proof. exact build_from_i32_get. Qed.
+Check min0_build_from_i32_get :
+  forall src, src <> [] -> Forall in_i32 src ->
+    exists m mn, build_from_i32 src = Ok (m, mn) /\ size m = nlen src /\
+      forall i, (i < length src)%nat ->
+        get m (N.of_nat i) = Ok (Z.to_N (nth i src 0%Z - mn)) /\ (mn <= nth i src 0%Z)%Z.
+Print Assumptions min0_build_from_i32_get.
